@@ -124,15 +124,15 @@ class C08(core.Check):
         return len(d.src)
 
     @staticmethod
-    def end_by_par(rnd, d, src, at, end, n):
+    def end_by_par(rnd, d, src, at, end, n, nt=0):
         """the paragraph with the open formula may also be ended by \\par or by an environment that starts a new
         paragraph, at a later top-level point before the next blank line"""
         later = [q for q in d.safe_points if at < q < end]
         if later and rnd.random() < .4:
             q = rnd.choice(later) + n
             brk = rnd.choice(['\\par ', '\\par\n', '\\begin{proof}\\end{proof}', '\\begin{minipage}{3cm}\\end{minipage}'])
-            return src[:q] + brk + src[q:], at, q + len(brk)
-        return src, at, end + n
+            return src[:q] + brk + src[q:], at + nt, q + len(brk)
+        return src, at + nt, end + n
 
     def inject(self, d, case):
         """-> (source, fault offset, swallow-end offset or None (= all following words must survive))"""
@@ -155,20 +155,25 @@ class C08(core.Check):
         pts = d.safe_points + [len(src)]
         at = pts[case['at']]
         rest = src[at:]
+        tab = ''
+        if f in ('inline', 'display', 'verb', 'accent', 'ltinput') and rnd.random() < .3:
+            # tabs in front of the fault on its line: the column counts characters
+            tab = rnd.choice(['\t', '\t\t', ' \t', '\t'])
+        nt = len(tab)
         if f == 'inline':
-            ins = rnd.choice(['$', '\\(']) + rnd.choice(['x+y ', 'a_1 ', '\\alpha ', 'f(x) ', 'x'])
+            ins = tab + rnd.choice(['$', '\\(']) + rnd.choice(['x+y ', 'a_1 ', '\\alpha ', 'f(x) ', 'x'])
             end = self.par_end(d, at)
-            return self.end_by_par(rnd, d, src[:at] + ins + rest, at, end, len(ins))
+            return self.end_by_par(rnd, d, src[:at] + ins + rest, at, end, len(ins), nt)
         if f == 'display':
-            ins = rnd.choice(['\\[', '$$', '\\begin{equation}', '\\begin{align*}', '\\begin{displaymath}']) + ' x=y '
+            ins = tab + rnd.choice(['\\[', '$$', '\\begin{equation}', '\\begin{align*}', '\\begin{displaymath}']) + ' x=y '
             end = self.par_end(d, at)
-            return self.end_by_par(rnd, d, src[:at] + ins + rest, at, end, len(ins))
+            return self.end_by_par(rnd, d, src[:at] + ins + rest, at, end, len(ins), nt)
         if f == 'verb':
             m = rest.find('\n')
             end = at + m if m >= 0 else len(src)
             delim = rnd.choice([c for c in '|!+=/;' if c not in src[at:end]] or ['\x7f'])
-            ins = '\\verb' + delim + rnd.choice(['abc', '', 'a b'])
-            return src[:at] + ins + rest, at, end + len(ins)
+            ins = tab + '\\verb' + delim + rnd.choice(['abc', '', 'a b'])
+            return src[:at] + ins + rest, at + nt, end + len(ins)
         if f == 'verb_eot':
             ins = rnd.choice(['\\verb', '\\verb|', '\\verb|ab', '\\verb+x'])
             return src[:at] + ins, at, None
@@ -181,12 +186,12 @@ class C08(core.Check):
             at += len(pre)
             return src[:at - len(pre)] + ins + rest.replace('%%% LT-SKIP-END', '%% LT-SKIP-END'), at, None
         if f == 'accent':
-            ins = rnd.choice(["\\'1", '\\`+', '\\^2', '\\"9', '\\~?', '\\c{3}', '\\v 7']) + ' '
-            return src[:at] + ins + rest, at, None
+            ins = tab + rnd.choice(["\\'1", '\\`+', '\\^2', '\\"9', '\\~?', '\\c{3}', '\\v 7']) + ' '
+            return src[:at] + ins + rest, at + nt, None
         if f == 'ltinput':
             # unreadable: missing file, a directory, or a file that cannot be decoded in the input encoding
-            ins = '\\LTinput{%s} ' % rnd.choice(['/nonexistent/dir/file.tex', self.tmp, self.fbin, self.fbin])
-            return src[:at] + ins + rest, at, None
+            ins = tab + '\\LTinput{%s} ' % rnd.choice(['/nonexistent/dir/file.tex', self.tmp, self.fbin, self.fbin])
+            return src[:at] + ins + rest, at + nt, None
         raise ValueError(f)
 
     def judge(self, case):
